@@ -8,6 +8,9 @@ import re
 
 INST_LINE = re.compile(r"^\s*([0-9a-f]+):\t((?:[0-9a-f]{2} )+)\s*\t(\S.*)$")
 CONT_LINE = re.compile(r"^\s*([0-9a-f]+):\t((?:[0-9a-f]{2} ?)+)\s*$")
+# --no-show-raw-insn: the text follows the address directly; what follows the tab is then never a lone pair of hex digits (no
+# x86 mnemonic or prefix is two hex letters), which is what tells it from a byte-continuation line of the default layout
+NORAW_LINE = re.compile(r"^\s*([0-9a-f]+):\t(?![0-9a-f]{2}(?:[ \t]|$))(\S.*)$")
 LABEL_LINE = re.compile(r"^[0-9a-f]+ <.*>:$")
 
 GPR64 = ["rax", "rbx", "rcx", "rdx", "rsi", "rdi", "rbp", "rsp"] + [f"r{i}" for i in range(8, 16)]
@@ -25,6 +28,9 @@ def classify_line(line):
     m = CONT_LINE.match(line)
     if m:
         return ("cont", m.group(1))
+    m = NORAW_LINE.match(line)
+    if m:
+        return ("inst", m.group(1), m.group(2))
     return ("other",)
 
 
